@@ -1125,6 +1125,20 @@ func (x *Exec) onChanSend(fr *Frame, st *State, ch *Term, v Val, et types.Type, 
 	if x.env.con.CloseOnly[key] && x.dry == 0 {
 		x.assert(st, "closeonly", "send on "+key+", declared close-only", tFalse, in.Pos(), nil)
 	}
+	if owner := x.env.con.SoleProducer[key]; owner != "" {
+		if owner != strings.SplitN(x.topKey(), "$", 2)[0] {
+			if x.dry == 0 {
+				x.assert(st, "soleproducer", "send on "+key+" outside its declared sole producer "+owner, tFalse, in.Pos(), nil)
+			}
+		} else {
+			// the known upper bound of the length grows by one with this send (applied after the
+			// call-site clauses below have been checked against the bound before the send)
+			defer func() {
+				h := st.H("ghost:chanmax", arraySort(sortInt, sortInt))
+				st.setH("ghost:chanmax", mkStore(h, ch, mkAdd(mkSelect(h, ch), mkInt(1))))
+			}()
+		}
+	}
 	{
 		hn := "ghost:sends:" + key
 		h := st.H(hn, arraySort(sortInt, sortInt))
